@@ -199,10 +199,12 @@ def main(argv=None):
             if len(samples) < 5:
                 samples.append(s)
         failures += r.get("failures", [])
-        if r.get("exhaustive"):
-            exhaustive = r["exhaustive"]
         for k, v in (r.get("extra") or {}).items():
             extra.setdefault(k, v)
+
+    # the enumeration was exhaustive only if every shard finished its share of it
+    if all(r.get("exhaustive") for r in results[:shards]) and not budget_hit:
+        exhaustive = results[0]["exhaustive"]
 
     violation_path = None
     unconfirmed = 0
